@@ -55,6 +55,47 @@ def go_env(dwarf4=True):
     return env
 
 
+def is_verdict_bearing(f):
+    base = os.path.basename(f["file"])
+    return (f["name"] == "ConstantTimeCmp" and base == "utils.go") or (f["name"] == "TestPrivateKey" and base == "sm2.go") or \
+           (f["name"] == "SetBytes" and f.get("recv") in ("SM2Element", "SM2ScalarElement"))
+
+
+def mark_verdict_helpers(funcs):
+    """A function g of the same package is a verdict helper when EVERY call of g in the sources sits in a `return`
+    statement of a verdict-bearing function (or of another verdict helper), outside every loop and behind the last
+    loop of that function: then g computes nothing but the final verdict its caller returns."""
+    bydir = {}
+    for f in funcs:
+        bydir.setdefault(os.path.dirname(f["file"]), []).append(f)
+    for d, fs in bydir.items():
+        names = {}
+        for f in fs:
+            if not f.get("recv"):
+                names.setdefault(f["name"], f)
+        changed = True
+        while changed:
+            changed = False
+            for name, g in names.items():
+                if g.get("verdict_helper") or is_verdict_bearing(g):
+                    continue
+                sites, ok = 0, True
+                for f in fs:
+                    if name in (f.get("other_calls") or []):
+                        ok = False
+                        break
+                    for c in (f.get("return_calls") or []):
+                        if c["callee"] != name:
+                            continue
+                        sites += 1
+                        last_loop_end = max([b for _, b in (f.get("loops") or [])] or [0])
+                        if not (is_verdict_bearing(f) or f.get("verdict_helper")) or c["in_loop"] or c["line"] < last_loop_end:
+                            ok = False
+                if ok and sites > 0:
+                    g["verdict_helper"] = True
+                    changed = True
+
+
 def source_ranges(verif):
     files = []
     for d in ("utils", "sm2", "sm2/internal", "sm2/internal/fiat"):
@@ -66,7 +107,9 @@ def source_ranges(verif):
     if out.returncode != 0:
         raise RuntimeError("goranges failed: " + out.stderr[-500:])
     table = {}
-    for f in json.loads(out.stdout):
+    funcs = json.loads(out.stdout)
+    mark_verdict_helpers(funcs)
+    for f in funcs:
         table.setdefault(os.path.basename(f["file"]), []).append(f)
     return table
 
@@ -146,6 +189,9 @@ def classify(err, ranges):
     info["in_loop"] = loop
     is_cmp = sfn == "utils.ConstantTimeCmp"
     is_setbytes = sfn in ("sm2/internal/fiat.(*SM2Element).SetBytes", "sm2/internal/fiat.(*SM2ScalarElement).SetBytes")
+    # the code at the reported line may belong to a helper that only ever computes the returned verdict of a
+    # verdict-bearing function ("return cmpVerdict(borrow, nonZero)", inlined or not): same rules, applied to the helper
+    is_helper = bool(f and f.get("verdict_helper"))
     # Verdict sites (both levels): the statement allows "only the final accept/reject verdicts" to depend on the secret.
     decision = bool(f and any(a <= line <= b for a, b in (f.get("decision_ifs") or [])))
     # ... and a FINAL verdict: it may not precede a loop of the same function (a verdict taken before the loop that
@@ -156,7 +202,7 @@ def classify(err, ranges):
             decision = False
             info["verdict_before_loop"] = True
     info["decision_if"] = decision
-    if (is_cmp or is_setbytes or sfn == "sm2.TestPrivateKey") and not loop and decision and kind == "branch":
+    if (is_cmp or is_setbytes or sfn == "sm2.TestPrivateKey" or is_helper) and not loop and decision and kind == "branch":
         # the condition of an `if` whose body always returns: an accept/reject verdict, outside every loop
         return scen, "allowed", dict(info, why="verdict: condition of an if that always returns, outside every loop")
     if sfn in ("sm2/internal.(*SM2Point).bytes", "sm2/internal.(*SM2Point).GetAffineX") and kind == "branch" and f and f["first_if"][0] > 0 and f["first_if"][0] <= line <= f["first_if"][1]:
